@@ -30,3 +30,22 @@ def install(reg):
     reg.cls("Report", {"version": "str", "uuid": "str", "timestamp": "str", "repository": "Optional[GithubRepository]",
                        "codebase": "Codebase"})
     reg.cls("ext:Style", {"color": "str"})
+    # pattern engine
+    reg.cls("State", {"id": "int", "transition": "list[tuple[Predicate,State]]", "epsilon_transitions": "list[State]", "@_id": "int"})
+    reg.cls("Automata", {"start": "State"})
+    reg.cls("DFA", {"accepting": "list[State]"})
+    reg.cls("NFA", {"accepting": "State"})
+    reg.cls("Pattern", {"start": "int", "end": "int", "automata": "DFA", "state": "State", "tokens": "list[Token]",
+                        "predicate_map": "dict[int,Predicate]"})
+    reg.cls("Predicate", {})
+    reg.cls("TokenPredicate", {"satisfied": "bool"})
+    reg.cls("Balanced", {"left": "TokenPredicate", "right": "TokenPredicate", "depth": "int"})
+    reg.cls("And", {"left": "TokenPredicate", "right": "TokenPredicate"})
+    reg.cls("Or", {"left": "TokenPredicate", "right": "TokenPredicate"})
+    reg.cls("Not", {"predicate": "TokenPredicate"})
+    reg.cls("Keyword", {"keyword": "str"})
+    reg.cls("Symbol", {"symbol": "str"})
+    reg.cls("Operator", {"symbol": "str"})
+    reg.cls("TokenValue", {"value": "str"})
+    reg.cls("Name", {})
+    reg.cls("Identity", {"item": "any"})
